@@ -34,6 +34,7 @@ def c13(ctx):
     # the wrap while a writer is inside the retired node (helping), context-bounded
     cb_run(ctx, dict(SPECS['nf_wrap'], hang_is_violation=True), 3, features=('test-strategies',))
     cb_run(ctx, dict(SPECS['nf_iso_wrap'], hang_is_violation=True), 2, features=('test-strategies',))
+    cb_run(ctx, dict(SPECS['nf_wrap'], focus=FOCUS), 5 if ctx.tier == 'quick' else 6, features=('test-strategies',))
 
 
 def conc_run(ctx, spec, flavor='rel', features=(), **kw):
@@ -49,7 +50,11 @@ def cb_run(ctx, spec, K, flavor='rel', features=(), **kw):
     s = ctx.session(flavor, features)
     r = cb.run_cb(s, spec, K=K, flavor=flavor, features=features, **kw)
     ctx.traces_validated += r.get('traces_validated', 0)
-    if kw.get('subject'):
+    if spec.get('focus'):
+        ctx.bounds.setdefault('focused_context_bounded_runs', []).append(
+            '%s: every schedule of its %d threads with at most %d preemptions placed before gated atomic steps of %s (the storage pointer and the helping protocol); switches elsewhere only when a thread finishes' % (
+                spec['name'], len(spec['threads']), K, ', '.join(spec['focus'])))
+    elif kw.get('subject'):
         ctx.bounds.setdefault('freeze_runs', []).append(
             '%s: the other %d thread(s) interleave with at most %d preemptions and are frozen at every gated atomic step in turn; thread %d then runs alone' % (
                 spec['name'], len(spec['threads']) - 1, K, kw['subject']))
@@ -66,6 +71,8 @@ def cb_set(ctx, names, K, **kw):
 
 
 W = 'cs_warm'
+# focused runs: preemptions only before steps on the storage pointer and of the helping protocol (deeper K)
+FOCUS = ('src/debt/helping.rs', 'src/strategy/hybrid.rs', 'src/lib.rs')
 W0 = None     # cold thread: its first use of the crate (node allocation) is part of the body
 # NOTE: the specs cas_aba, cas3, rcu2, rcu_reuse, lin2, lin_fb_own, iso_ba and nf_lin are kept for reference but are in no
 # tier: with the current engine their extraction/queries do not finish within an hour (see DESIGN.md, Changes E).
@@ -219,6 +226,9 @@ def c01(ctx):
         cb_set(ctx, ['a_full', 'b_fallback'], 2)
     else:
         cb_set(ctx, ['a_fast', 'a_full', 'a_keep', 'b_held3', 'b_fallback', 'iso_b', 'moved_guard'], 3)
+    # deeper, preemptions focused on the storage pointer and the helping protocol
+    cb_run(ctx, dict(SPECS['b_fallback'], focus=FOCUS), 4 if ctx.tier == 'quick' else 6)
+    cb_run(ctx, dict(SPECS['nf_lin_rec'], focus=FOCUS), 4 if ctx.tier == 'quick' else 5, features=TS)
 
 
 @prop('C02')
@@ -244,6 +254,11 @@ def c03(ctx):
     # the same oracle across thread churn: the reader exits, a new thread takes over its node while a helping writer
     # may still be inside it (a load that started after a store returned must not come back with an older value)
     cb_run(ctx, SPECS['nf_churn'], 3, features=TS)
+    # deeper, with the preemptions focused on the storage pointer and the helping protocol: a writer overtaken by a
+    # thread exit AND by the start of the node's next owner needs four of them
+    cb_run(ctx, dict(SPECS['nf_churn_min'], focus=FOCUS), 4, features=TS)
+    cb_run(ctx, dict(SPECS['nf_lin_rec'], focus=FOCUS), 4 if ctx.tier == 'quick' else 5, features=TS)
+    cb_run(ctx, dict(SPECS['nf_churn'], focus=FOCUS), 5 if ctx.tier == 'quick' else 6, features=TS)
     if ctx.tier != 'quick':
         cb_set(ctx, ['lin1', 'lin1_fb'], 3)
         # churn with 4 preemptions on a minimal scenario (a writer that is overtaken by a thread exit AND by the start
@@ -259,6 +274,7 @@ def c04(ctx):
     conc_set(ctx, ['swap2'])
     cb_run(ctx, SPECS['swap2'], 2 if ctx.tier == 'quick' else 3)
     cb_run(ctx, SPECS['cas_aba'], 3)
+    cb_run(ctx, dict(SPECS['cas_aba'], focus=FOCUS), 5)
     # Option container: clearing (swap(None), store(None)) is a write like any other
     cb_set(ctx, ['opt_take2', 'opt_clear', 'opt_store'], 2 if ctx.tier == 'quick' else 3)
     if ctx.tier != 'quick':
@@ -272,6 +288,7 @@ def c05(ctx):
     seq_run(ctx, 'c05_forms_option')
     # cas(obj0 -> obj1) racing swap(obj2); store(obj0): the A-B-A schedules need 3 preemptions
     cb_run(ctx, SPECS['cas_aba'], 3)
+    cb_run(ctx, dict(SPECS['cas_aba'], focus=FOCUS), 5)
     # `current` given as Guard / &Guard / &pointer while another thread frees the value and a new one re-uses its memory
     ctx.bounds['address_reuse'] = 'scenario cas_reuse: a freed pool object is brought to life again as a NEW value at the same address'
     cb_run(ctx, SPECS['cas_reuse'], 2 if ctx.tier == 'quick' else 3)
@@ -288,6 +305,7 @@ def c06(ctx):
     cb_run(ctx, SPECS['rcu2'], 1 if ctx.tier == 'quick' else 2)
     # rcu against an A-B-A of the stored pointer (swap(B) and store(A) by other threads while rcu is between its load and its exchange)
     cb_run(ctx, SPECS['rcu_aba3'], 2)
+    cb_run(ctx, dict(SPECS['rcu_aba'], focus=FOCUS), 4 if ctx.tier == 'quick' else 5)
     if ctx.tier != 'quick':
         cb_run(ctx, SPECS['rcu_aba'], 3)
 
@@ -303,6 +321,7 @@ def c12(ctx):
     cb_run(ctx, SPECS['iso_b'], 2 if ctx.tier == 'quick' else 3)
     # the reader of A moves (generation wrap) onto the node of an exited thread that last read B, a writer of B walks by
     cb_run(ctx, SPECS['nf_iso_wrap'], 2, features=TS)
+    cb_run(ctx, dict(SPECS['nf_iso'], focus=FOCUS), 5 if ctx.tier == 'quick' else 6, features=TS)
     if ctx.tier != 'quick':
         ctx.bounds['helping_path'] = 'scenario nf_iso on HybridStrategy<NoFastSlots>: reader alternates helping loads of B and A while a writer of B helps it'
         conc_run(ctx, SPECS['nf_iso'], features=TS, loop_bound=3, timeout_s=1200)
@@ -324,7 +343,7 @@ def c14(ctx):
     ctx.bounds.update({'program_length': 2 if ctx.tier == 'quick' else 3, 'containers': 1, 'pool_values': 3,
                        'guards_held': 2, 'operations': 'load(kept), load_full, guard drop, store, swap, compare_and_swap, rcu, Guard::into_inner/from_inner, into_inner',
                        'strategies': ['DefaultStrategy', 'HybridStrategy<NoFastSlots>', 'RwLock<()>']})
-    ctx.outside += ['programs longer than the bound', 'several containers in one program', 'None values (covered in C05/C16)']
+    ctx.outside += ['programs longer than the bound', 'several containers in one program']
     n = '2' if ctx.tier == 'quick' else '3'
     seq_run(ctx, 'c14_default_' + n, covers=(1, 2), max_paths=400000)
     seq_run(ctx, 'c14_cursor')
@@ -334,8 +353,15 @@ def c14(ctx):
     seq_run(ctx, 'c13_wrap_moved')
     seq_run(ctx, 'c14_nofast_' + n, features=TS, covers=(1, 2), max_paths=400000)
     seq_run(ctx, 'c14_rwlock_' + n, features=TS, covers=(1, 2), max_paths=400000)
+    # the same driver on an Option container: None (null) is stored, swapped, compared (as &None and as a null raw
+    # pointer) and rotated through by rcu like any other value
+    ctx.bounds['option_container'] = 'programs of length 2 (thorough: 3 for the default strategy) over {Some(a), Some(b), None} for all three strategies'
+    seq_run(ctx, 'c14o_default_2', covers=(1, 2), max_paths=400000)
+    seq_run(ctx, 'c14o_nofast_2', features=TS, covers=(1, 2), max_paths=400000)
+    seq_run(ctx, 'c14o_rwlock_2', features=TS, covers=(1, 2), max_paths=400000)
     if ctx.tier != 'quick':
         seq_run(ctx, 'c14_default_3', flavor='dbg', covers=(1, 2), max_paths=400000)
+        seq_run(ctx, 'c14o_default_3', covers=(1, 2), max_paths=400000)
 
 
 @prop('C16')
@@ -472,6 +498,7 @@ def c11(ctx):
     cb_run(ctx, SPECS['nf_churn'], 3, features=TS)
     # two new threads race for the node an exited thread left behind: it must end up with one of them only
     cb_run(ctx, SPECS['nf_claim2'], 2 if ctx.tier == 'quick' else 3, features=TS)
+    cb_run(ctx, dict(SPECS['nf_churn'], focus=FOCUS), 5 if ctx.tier == 'quick' else 6, features=TS)
     if ctx.tier != 'quick':
         seq_run(ctx, 'c11_shutdown_ops', flavor='dbg')
         cb_run(ctx, SPECS['nf_claim2'], 2, flavor='dbg', features=TS)
